@@ -360,7 +360,9 @@ impl<H: HashImplementation> HashChainHolderImpl<H> {
                 }
             }
 
-            max_chain -= 1;
+            // a budget of zero (a chain limit below 4 quartered by the lazy "good match" rule) has always
+            // meant "no limit" here because the counter wrapped; keep that, without the overflow
+            max_chain = max_chain.wrapping_sub(1);
 
             if max_chain == 0 {
                 if let Some(r) = best_match {
